@@ -487,10 +487,8 @@ def r2_3(prog, rep):
     f = prog.fn("resolver.Resolver.visitBinaryExpr")
     p = f.params[1]
     # variable holding the operator kind
-    kvar = None
-    for s in f.body:
-        if isinstance(s, ast.Assign) and unparse(s.value) == f"{p}.operator.kind" and isinstance(s.targets[0], ast.Name):
-            kvar = s.targets[0].id
+    from . import shared as _shk
+    kvar = _shk.ensure_kind_variable(f, p)
     if kvar is None:
         raise AnalysisError("Resolver.visitBinaryExpr: `otype = expr.operator.kind` not found")
     known_kinds = set()
